@@ -15,3 +15,10 @@ func (verifNoLimit) Account(string) bool { return true }
 func VerifNewGrpcV1(cfg APIConfig, si SearchIngestor, mp MappingProvider) seqproxyapi.SeqProxyApiServer {
 	return newGrpcV1(cfg, si, mp, verifNoLimit{}, nil)
 }
+
+// VerifIngestorDefaults passes a configuration through the defaulting NewIngestor applies first thing,
+// so that the harness builds the bulk ingestor from what a proxy would really run with.
+func VerifIngestorDefaults(c IngestorConfig) IngestorConfig {
+	c.setDefaults()
+	return c
+}
